@@ -439,7 +439,7 @@ theorem rframe_unlessPw {t : Term.T} {f : Term.T → Term.Res} (h : RFrame t (f 
 /-- A reference step other than DECSC / DECRC / ?1049 leaves the saved cursors, the screen selector
     and the inactive primary grid alone. -/
 theorem step_frame (t : Term.T) (tok : Term.Tok) (h1 : tok ≠ .decsc) (h2 : tok ≠ .decrc)
-    (h3 : tok ≠ .altOn) (h4 : tok ≠ .altOff) :
+    (h3 : tok ≠ .altOn) (h4 : tok ≠ .altOff) (h5 : tok ≠ .ris) :
     ∀ l, Term.step t tok = .accept l → ∀ t' ∈ l, TFrame t t' := by
   show RFrame t (Term.step t tok)
   cases tok with
@@ -535,5 +535,6 @@ theorem step_frame (t : Term.T) (tok : Term.Tok) (h1 : tok ≠ .decsc) (h2 : tok
   | showCursor on => exact rframe_one ⟨rfl, rfl, rfl, fun _ => rfl⟩
   | cursorShape n => exact rframe_one ⟨rfl, rfl, rfl, fun _ => rfl⟩
   | osc8 p u => exact rframe_one ⟨rfl, rfl, rfl, fun _ => rfl⟩
+  | ris => exact absurd rfl h5
 
 end VaxisModel.Lemmas.EmuRefine
